@@ -262,9 +262,13 @@ fn inline(depth: u32, compat: bool, in_a: bool) -> BoxedStrategy<String> {
         out
     });
     let fmt = (prop_oneof![Just("b"), Just("i"), Just("u"), Just("strong"), Just("em"), Just("s"), Just("del"), Just("sup"), Just("sub")], kids()).prop_map(|(t, k)| format!("<{t}>{k}</{t}>"));
-    let code = (prop::option::of("[a-z]{1,6}"), clean_text()).prop_map(|(l, t)| match l {
-        Some(l) => format!("<code class=\"language-{l}\">{t}</code>"),
-        None => format!("<code>{t}</code>"),
+    // zero to three allowed classes (single spaces: a class attribute the sanitizer need not rewrite)
+    let code = (prop::collection::vec("[a-z]{1,6}", 0..4), clean_text()).prop_map(|(l, t)| {
+        if l.is_empty() {
+            format!("<code>{t}</code>")
+        } else {
+            format!("<code class=\"{}\">{t}</code>", l.iter().map(|x| format!("language-{x}")).collect::<Vec<_>>().join(" "))
+        }
     });
     let span = (prop::collection::vec((prop_oneof![Just("data-mx-color"), Just("data-mx-bg-color"), Just("data-mx-spoiler"), Just("data-mx-maths")], "[a-z0-9#]{0,7}"), 0..3), kids())
         .prop_map(|(a, k)| format!("<span{}>{k}</span>", sorted_attrs(a.into_iter().map(|(k, v)| (k.to_owned(), v)).collect())));
